@@ -170,7 +170,17 @@ Theorem C02_rename_stale_tmp_example :
 Proof. exact rename_consumes_stale_tmp. Qed.
 Print Assumptions C02_rename_stale_tmp_example.
 
-(* all four conjuncts of C02.step_spec together *)
+(* "... so the installation can always be listed": on a forest with the base directory set up the
+   listing command (CProbe = FindLayers + ProbeAllLayerstate, what `layercake list` / `status` run)
+   returns -- in every environment (it performs no operation), whatever the kernel table and the
+   users map are *)
+Theorem C02_listable : forall cfg w e um,
+  C02.forest_ok cfg (wo_fs w) = true -> base_set_up cfg (wo_fs w) = true ->
+  v_res (view_of_model cfg w e CProbe um) = ROk.
+Proof. exact listable. Qed.
+Print Assumptions C02_listable.
+
+(* all five conjuncts of C02.step_spec together *)
 Theorem C02_step_spec_partial : forall cfg w e cmd um,
   cfg_ok cfg = true -> fs_ok cfg (wo_fs w) = true -> names_distinct cfg w = true ->
   paths_distinct w = true ->
